@@ -9,7 +9,7 @@ op    := `g <kind> <plen> <p>*` | `r <kind> <id>` | `o` (release own) | `w` (ren
          kinds 1..3: p = the id as a number (base-|Charset| reading of the 8 random characters);
          kind 9 (node slot): candidate = NodeIDMin + a.
 obs   := event* `|` viewkey*
-event := `ok.<tid>.<kind>.<id>` | `exh.<tid>.<kind>` | `rel.<tid>.<kind>.<id>` | `relo.<tid>.<kind>.<id>` (release-own) | `rnw.<tid>.<kind>.<id>` | `nop.<tid>` | `err.<tid>` | `tick.<dt>`
+event := `ok.<tid>.<kind>.<id>` | `exh.<tid>.<kind>` | `rel.<tid>.<kind>.<id>` | `relo.<tid>.<kind>.<id>` (release-own) | `rnw.<tid>.<kind>.<id>` | `nop.<tid>` | `err.<tid>` | `dead.<tid>.<kind>.<id>` (heartbeat tick without heartbeat) | `tick.<dt>`
 ids are printed as the real code prints them (`10000002`, `pmap_AAAAAAAB`, `node-0001`).
 -/
 namespace Tunnox.Drv.C15
@@ -70,6 +70,7 @@ def renderEv : Ev → String
   | .rnw t k i => s!"rnw.{t}.{k}.{renderId k i}"
   | .nop t => s!"nop.{t}"
   | .err t => s!"err.{t}"
+  | .dead t k i => s!"dead.{t}.{k}.{renderId k i}"
   | .tick d => s!"tick.{d}"
 
 def keyLe (a b : Key) : Bool := a.1 < b.1 || (a.1 == b.1 && a.2 ≤ b.2)
@@ -88,6 +89,7 @@ def parseEv (tok : String) : Option Ev :=
   | ["rnw", t, k, i] => do let t ← t.toNat?; let k ← k.toNat?; let i ← parseId k i; pure (.rnw t k i)
   | ["nop", t] => do let t ← t.toNat?; pure (.nop t)
   | ["err", t] => do let t ← t.toNat?; pure (.err t)
+  | ["dead", t, k, i] => do let t ← t.toNat?; let k ← k.toNat?; let i ← parseId k i; pure (.dead t k i)
   | ["tick", d] => do let d ← d.toNat?; pure (.tick d)
   | _ => none
 
@@ -179,7 +181,7 @@ def parseCase (ts : List String) : Option Case :=
     | _ => none
   | _ => none
 
-def paramsOf (c : Case) : Params := ⟨c.cas, ttlOf c.ttl, maxOf, true⟩
+def paramsOf (c : Case) : Params := ⟨c.cas, ttlOf c.ttl, maxOf, true, true⟩
 
 /-- Capabilities of the shipped stores and the constants, as the extractor saw them. -/
 def capsLine : String :=
